@@ -7,6 +7,7 @@ FUNCS = [('sqlparse.filters.tokens._CaseFilter.process', 'KeywordCaseFilter'),
          ('sqlparse.filters.tokens.TruncateStringFilter.process', None),
          ('sqlparse.formatter.validate_options', None),
          ('sqlparse.filters.others.StripCommentsFilter._process', 'sites'),
+         ('sqlparse.filters.others.StripCommentsFilter._process', 'shape: A comment B ws hint ws comment'),
          ('sqlparse.filters.others.StripCommentsFilter._process.<locals>._get_insert_token', None)]
 
 
@@ -35,7 +36,10 @@ def run(rep):
                      'a Name / String.Symbol token value is not blank (lexer fact)',
                      'StripCommentsFilter._process: per-site SMT obligations (every removed element is a comment that is not '
                      'a hint, every inserted one a fresh whitespace token) in the thorough tier; the closure _get_insert_token '
-                     '(result: a whitespace leaf allocated by the call) in both tiers; "no two tokens fused or '
+                     '(result: a whitespace leaf allocated by the call) in both tiers; in both tiers also the shape case  A '
+                     '<comment> B ws <hint> ws <comment>  with the result the property demands: both comments are gone, the hint, '
+                     'A, B and the original whitespace are the same objects in the same order, a whitespace token stands where a '
+                     'comment separated two tokens; "no two tokens fused or '
                      'split / idempotent" (re-lexing): bounded stand-in only'],
         trusted=['CPython re engine', 'str case-mapping methods'],
         extra_functions=['sqlparse.filters.others.StripCommentsFilter._process'])
